@@ -440,6 +440,29 @@ func explore(run *vlib.Run, b Bounds, graphs []*Graph) {
 		results[r.G][r.C] = &rr
 		mu.Unlock()
 	}
+	stopProgress := make(chan bool)
+	go func() {
+		tk := time.NewTicker(30 * time.Second)
+		defer tk.Stop()
+		for {
+			select {
+			case <-stopProgress:
+				return
+			case <-tk.C:
+				mu.Lock()
+				d := 0
+				for gi := range results {
+					for _, r := range results[gi] {
+						if r != nil {
+							d++
+						}
+					}
+				}
+				mu.Unlock()
+				fmt.Fprintf(os.Stderr, "C06 progress: %d/%d configurations after %.0fs\n", d, totalCfg, time.Since(startT).Seconds())
+			}
+		}
+	}()
 	next := 0
 	var wg sync.WaitGroup
 	for w := 0; w < workers; w++ {
@@ -494,6 +517,7 @@ func explore(run *vlib.Run, b Bounds, graphs []*Graph) {
 		}()
 	}
 	wg.Wait()
+	close(stopProgress)
 
 	// ---- aggregate -------------------------------------------------------------------------------------------
 	evaluations, nontrivial, cfgDone, cfgPass := 0, 0, 0, 0
@@ -621,22 +645,39 @@ func explore(run *vlib.Run, b Bounds, graphs []*Graph) {
 	sigCount := map[string]int{}
 	reported := map[string]bool{}
 	nondet := 0
-	for _, f := range fails {
+	// feature masks of every configuration that passed both oracles
+	passing := map[uint32]bool{}
+	for gi := range graphs {
+		var cf []Config
+		for ci, r := range results[gi] {
+			if r != nil && r.Class == "" {
+				if cf == nil {
+					cf = graphs[gi].configs()
+				}
+				passing[graphs[gi].featureMask(cf[ci])] = true
+			}
+		}
+	}
+	finders := map[string]*conditionFinder{}
+	finder := func(k string) *conditionFinder {
+		if finders[k] == nil {
+			finders[k] = newConditionFinder(passing)
+		}
+		return finders[k]
+	}
+	for _, f := range fails { // enumeration order: smallest graph first
 		g := graphs[f.g]
 		c := g.configs()[f.c]
+		mask := g.featureMask(c)
+		var sig, what string
 		if len(variants[key{f.g, f.c}]) > 1 {
 			nondet++
-			sig := "C06|nondeterministic|" + nondetCondition(g, c)
-			sigCount[sig]++
-			if !reported[sig] {
-				reported[sig] = true
-				run.Report(sig, fmt.Sprintf("the same graph+partition gives different results in different processes (%d distinct outcomes over %d runs); graph %s, partition %s", len(variants[key{f.g, f.c}]), reruns+1, g.Key(), c), replayCase{g, c, f.r.BadIn, g.Source(c)})
-			} else {
-				run.Report(sig, "", nil)
-			}
-			continue
+			sig = "C06|nondeterministic|" + finder("nondeterministic").condition(mask)
+			what = fmt.Sprintf("the same graph+partition gives different results in different processes (%d distinct outcomes over %d runs); graph %s, partition %s", len(variants[key{f.g, f.c}]), reruns+1, g.Key(), c)
+		} else {
+			cond := finder(classKey(f.r)).condition(mask)
+			sig, what = classify(g, c, f.r, cond, results[f.g])
 		}
-		sig, what := classify(g, c, f.r, results[f.g], graphs[f.g])
 		sigCount[sig]++
 		if !reported[sig] {
 			reported[sig] = true
@@ -754,24 +795,8 @@ func probe(g *Graph, c Config, only []uint8) bool {
 	src := g.Source(c)
 	fmt.Printf("graph: %s\npartition: %s   (topologically ordered: %v)\n--- source ---\n%s--- end source ---\n", g.Key(), c, g.isTopological(c), src)
 	restore := silence()
-	t0 := time.Now()
 	b, stage, errText, panicked := assemble(src)
 	restore()
-	fmt.Printf("assembly took %v\n", time.Since(t0))
-	if pf := os.Getenv("C06_PROF"); pf != "" {
-		f, _ := os.Create(pf)
-		pprof.StartCPUProfile(f)
-		defer pprof.StopCPUProfile()
-	}
-	for k := 0; k < 20; k++ {
-		restore := silence()
-		t0 = time.Now()
-		assemble(src)
-		restore()
-		fmt.Printf("assembly again took %v\n", time.Since(t0))
-	}
-	t0 = time.Now()
-	defer func() { fmt.Printf("simulations took %v\n", time.Since(t0)) }()
 	if b == nil {
 		fmt.Printf("assembler stage=%s panicked=%v: %s\n", stage, panicked, errText)
 		return false
